@@ -158,7 +158,7 @@ func checkC20(p *Program, r *Result) {
 	// ---- e: the "load the next chunk before yielding" trigger only exists for the two time orders; in file order a
 	// chunk is loaded only when the queue is empty (one chunk in memory)
 	r.rule("C20.e", "early chunk loads are tied to an explicit time order", 2)
-	for _, m := range methodsOf(p, pkgMcap, "indexedMessageIterator") {
+	for _, m := range iteratorAndQueueMethods(p) {
 		if m.Blocks == nil {
 			continue
 		}
@@ -411,7 +411,7 @@ func checkReuseBeforeGrow(p *Program, r *Result) {
 	// append(it.chunkSlots, ...) dominated by an If on the "found a free slot" result
 	found := false
 	var all []ssa.Instruction
-	for _, m := range methodsOf(p, pkgMcap, "indexedMessageIterator") {
+	for _, m := range iteratorAndQueueMethods(p) {
 		if m.Blocks != nil {
 			all = append(all, instrsOf(m)...)
 		}
@@ -499,7 +499,7 @@ func checkReuseBeforeGrow(p *Program, r *Result) {
 		tn, fl string
 	}
 	var sites []bufSite
-	for _, m := range methodsOf(p, pkgMcap, "indexedMessageIterator") {
+	for _, m := range iteratorAndQueueMethods(p) {
 		if m.Blocks != nil {
 			sites = append(sites, bufSite{m, "chunkSlot", "buf"})
 		}
